@@ -12,6 +12,7 @@ checks = {
  "C03": ("mcx", "E1: every schedule of 1-3 producers x 1-2 independently polled listeners (fixed listener set, dense and non-dense stream ids) on the six real Multi channels, all implemented send entry points, fewer events than BUFFER; oracle per listener: exactly-once, per-producer order, nothing alien; across listeners: same allocation per event, distinct storage for events held simultaneously", "§4 C03", "stateless deviation-bounded DFS over thread schedules of the real code + per-listener exactly-once/order oracle"),
  "C04": ("mcx", "E1: every schedule of producers against *driven* (park/unpark) streams for the 11 channel kinds x entry points x MAX_STREAMS x streams created; oracle: no accepted event pending when all producers returned and all streams are parked", "§4 C04", "stateless deviation-bounded DFS over thread schedules + quiescence oracle"),
  "C07": ("mcx", "E1: every schedule of a requester (cancel_all_streams, or gracefully_end_stream of one id on a paused tokio runtime) against 1-2 driven streams and a concurrent producer, for the 11 channel kinds; oracle at quiescence: no targeted stream is left parked, nothing alien/duplicated is yielded, stream accounting and id reuse are exact, untargeted streams still receive an event sent afterwards", "§4 C07", "stateless deviation-bounded DFS over thread schedules + quiescence oracle"),
+ "C09": ("mcx", "E1: every schedule of 1-2 publishers (send / send_with) on the real mmap-log channel against a subscription made at an arbitrary point (new-only / old+new split / old+new joined) and a concurrently consuming joined listener, with 0-2 events of prior history; oracle after a sequential drain: one total order containing every accepted event once and extending each publisher's order; joined listeners agree; old ++ new of a split equals it, old ends by itself, the split point respects real time; new-only is a gapless suffix containing everything sent after the subscription returned; every reference still reads the value it was yielded with, one address per event", "§4 C09", "stateless deviation-bounded DFS over thread schedules + total-order / partition oracle"),
  "C13": ("mcx", "E1: every schedule of 2-4 threads x 1-3 alloc_ref / alloc_with / dealloc_id / dealloc_ref operations on both pool allocators (POOL 2/4, slots pre-owned by the threads so that frees race allocations); oracle: ownership table (no slot handed out while owned, owner re-reads what it wrote), permissive interval rule for failed allocations, capacity restored afterwards, id<->reference bijection", "§4 C13", "stateless deviation-bounded DFS over thread schedules + ownership-table oracle"),
  "C14": ("mcx", "E1: every schedule of 2-4 threads cloning / dropping / dereferencing OgreArc handles to one pooled instrumented value, for every constructor (new_with_clones, new_with+clone, increment_references+raw_copy, OgreUnique::into_ogre_arc), both allocators, 0-2 handles kept by the harness; oracle: every deref reads the value, destructor count 0 while a handle lives and exactly 1 afterwards, references_count() at rest, slot returned to the pool", "§4 C14", "stateless deviation-bounded DFS over thread schedules + instrumented-payload oracle"),
  "C19": ("mcx", "E1: every schedule of 2-3 recorder threads x 1-3 inc() with one probing reader on AtomicIncrementalAverage64; oracle: final count exact, final average = mean, every (count, average) reading explained by some set of measurements consistent with real time (brute force over subsets)", "§4 C19", "stateless deviation-bounded DFS over thread schedules + subset-explanation oracle"),
